@@ -1,4 +1,6 @@
-(* C03 — the explicit witness against the 'Penta' structure in R^2 (executable data only, no proofs).
+(* C03 — REGRESSION witness: the closed form that CovPenta.cpp carried before fix C03_1 (verbatim the 1-D
+   regularised form of CovReg1D.cpp, used with scadef 1, i.e. scale = range) is not positive semi-definite in R^2.
+   Modelled here as the Reg1D structure (code 20) with scales = range. (executable data only, no proofs).
    Seven points with INTEGER mutual distances (a centre and six points of the circle of radius 25 taken from the
    7-24-25 triangle), range 32: every normalised distance is the rational d/32, so the covariance matrix of the
    closed form is exact in Q. *)
@@ -9,7 +11,7 @@ Local Open Scope Q_scope.
 
 Definition ident2 : list (list Q) := [[1; 0]; [0; 1]].
 Definition penta_cova (range : Q) : cova :=
-  {| cv_type := 21; cv_param := 0; cv_scales := [range; range]; cv_rot := ident2; cv_sill := [[1]];
+  {| cv_type := 20; cv_param := 0; cv_scales := [range; range]; cv_rot := ident2; cv_sill := [[1]];
      cv_field := range; cv_cov0 := 0 |}.
 Definition penta_pts : list (list Q) :=
   [[25; 0]; [7; 24]; [-(7); 24]; [-(25); 0]; [-(7); -(24)]; [7; -(24)]; [0; 0]].
